@@ -79,6 +79,13 @@ BP_SCRIPT = {"detect": {"result": "plan", "plan": [["provides", "x"], ["requires
                        "store": tomlw.tagged({"k": "v", "n": 1}), "build_sboms": ["cdx", "spdx"], "launch_sboms": ["syft"]}}
 
 
+# operations that replace what they write: issued again after a reported failure, a successful retry leaves what a first successful call leaves
+# (write_metadata is not one of them: it reads the layer's TOML file first, and what a failed write left of that file is the retry's input)
+RETRIED = ("write-env", "write-sboms", "write-exec-d")
+RETRY_OUTCOME = {}
+OTHER_SET = {}
+
+
 def enc(step, src):
     s = dict(step)
     if s["op"] == "write_metadata":
@@ -184,6 +191,9 @@ def execute(root, opname, shim, mode, k=0, err=5):
     base_op, variant = split_op(opname)
     kind, _, pre, step = OPS[base_op]
     um = 0o077 if variant == "umask077" else 0o022
+    retried = None
+    RETRY_OUTCOME.pop(root, None)
+    OTHER_SET.pop(root, None)
     if kind == "mon":
         env["VP_SHIM_ARMED"] = "0"
         mon = vp.Mon("layers", env=env, umask=um)
@@ -203,10 +213,27 @@ def execute(root, opname, shim, mode, k=0, err=5):
                 raise vp.Broken("fsshim is not loaded in the executor")
             rep = mon.call(enc(step, os.path.join(w, "src")))
             mon.call({"op": "arm", "on": False})
+            if "err" in rep and mode == "inject" and base_op in RETRIED:
+                # the caller handles the error and issues the same write again, now without a fault: these writes replace what is there, so a
+                # retry that reports success has left exactly what the call leaves without any fault before it
+                if not (base_op == "write-exec-d" and k % 2):
+                    retried = mon.call(enc(step, os.path.join(w, "src")))
+                else:
+                    # ... or, every other time, decides on another set of programs instead: that set is then what the layer has
+                    retried = mon.call(enc({"op": "write_exec_d", "name": "L", "programs": [["q1", "p1"]]}, os.path.join(w, "src")))
+                    if "err" not in retried:
+                        have = sorted(n for n in os.listdir(ldir) if n.startswith("exec.d"))
+                        progs = sorted(os.listdir(os.path.join(ldir, "exec.d"))) if os.path.isdir(os.path.join(ldir, "exec.d")) else None
+                        OTHER_SET[root] = None if (have, progs) == (["exec.d"], ["q1"]) else "exec.d* entries of the layer: %r, programs in exec.d: %r" % (have, progs)
+                        retried = mon.call(enc(step, os.path.join(w, "src")))      # (and back, for the comparison below)
             mon.call({"op": "chdir", "dir": "/"})
         finally:
             mon.close()
         ok, detail = "err" not in rep, rep.get("detail", "")[:200]
+        if retried is not None:
+            RETRY_OUTCOME[root] = "err" not in retried
+            if "err" not in retried:
+                rep = retried
         # what the buildpack's callbacks were shown (metadata, layer data) and the state that was reported belong to the outcome: an operation
         # that claims success under a fault must have shown and reported what it shows and reports without the fault
         observed = json.dumps({"callbacks": rep.get("callbacks"), "state": rep.get("state"), "data": rep.get("data")}, sort_keys=True).replace(root, "<root>").replace(root.encode().hex(), b"<root>".hex())
@@ -216,7 +243,7 @@ def execute(root, opname, shim, mode, k=0, err=5):
         observed = None
     trace = vp.read_trace(log)
     snap = vp.snapshot(w, lambda rel: rel in (b"script.json",) or rel.startswith(b"bp/bin"))
-    if observed is not None and ok:
+    if observed is not None and (ok or RETRY_OUTCOME.get(root)):
         snap[b"<what the callbacks saw and the call returned>"] = ("f", 0, observed.encode())
     return ok, detail, trace, snap
 
@@ -268,6 +295,20 @@ def task(arg):
         sh.count("tolerated_with_identical_result")
     else:
         sh.count("reported_as_error")
+        if root in RETRY_OUTCOME:
+            sh.count("retries_after_a_reported_fault")
+            if root in OTHER_SET:
+                sh.count("other_program_sets_written_after_a_reported_fault")
+                if OTHER_SET[root]:
+                    sh.violation("write-after-failure-differs:%s:%s:%s" % (opname, f["class"], callinfo), "%s: the call reported the error; write_exec_d_programs with the one program q1 issued after it (no fault) reported "
+                                 "success, but the layer does not have exactly that program: %s" % (what, OTHER_SET[root]), case)
+                    return sh.dict()
+            if RETRY_OUTCOME[root]:
+                sh.count("retries_that_succeeded")
+                if snap != baseline:
+                    sh.violation("retry-success-differs:%s:%s:%s" % (opname, f["class"], callinfo), "%s: the call reported the error; the same call issued again (no fault) reported success, but the directory differs "
+                                 "from what the call leaves when nothing failed: %s" % (what, vp.snap_diff(baseline, snap, 4)), case)
+                    return sh.dict()
     sh.nontrivial.add((opname, f["class"], callinfo))
     if k % 9 == 0:
         sh.sample({"operation": opname, "fault": "%s at call #%d: %s(%s)" % (ename, k, f["call"], f["phys"].decode(errors="replace")[-50:]), "observed": "Err" if not ok else "Ok with identical directory"}, cap=1)
@@ -308,6 +349,7 @@ def history_fault_case(arg):
         env = {"LD_PRELOAD": shim, "VP_SHIM_PREFIX": w, "VP_SHIM_MODE": mode, "VP_SHIM_LOG": log, "VP_SHIM_CLASS": CLASSES, "VP_SHIM_K": str(k), "VP_SHIM_ERRNO": str(ERRNOS[ename]), "VP_SHIM_ARMED": "0"}
         mon = vp.Mon("layers", env=env)
         rep = None
+        retry = []
         alive = set()
         try:
             mon.call({"op": "init", "layers_dir": layers, "app_dir": os.path.join(root, "app"), "bp_dir": os.path.join(root, "bp")})
@@ -334,11 +376,14 @@ def history_fault_case(arg):
                 rep = mon.call(c01.enc_step(step, src))
                 if i == armed_at:
                     mon.call({"op": "arm", "on": False})
+                    if mode == "inject" and "err" in rep and step["op"] in ("write_env", "write_sboms", "write_exec_d"):
+                        again = mon.call(c01.enc_step(step, src))
+                        retry.append("err" not in again)
                 if step["op"] in ("cached", "uncached"):
                     (alive.discard if "err" in rep else alive.add)(step["name"])
         finally:
             mon.close()
-        out = (rep, vp.read_trace(log), vp.snapshot(w))
+        out = (rep, vp.read_trace(log), vp.snapshot(w), retry)
         vp.rmtree(root)
         return out
 
@@ -367,6 +412,14 @@ def history_fault_case(arg):
         sh.count("tolerated_with_identical_result")
     else:
         sh.count("reported_as_error")
+        if got[3]:
+            sh.count("retries_after_a_reported_fault")
+            if got[3][0]:
+                sh.count("retries_that_succeeded")
+                if got[2] != base[2]:
+                    sh.violation("retry-success-differs:history:%s:%s" % (step["op"], fired[0]["class"]), "%s: the call reported the error; the same call issued again (no fault) reported success, but the "
+                                 "directory differs from the fault-free run: %s" % (what, vp.snap_diff(base[2], got[2], 4)), case)
+                    return sh.dict()
     sh.nontrivial.add(("history", step["op"], step.get("mtype"), fired[0]["class"], role(fired[0]["phys"], work)))
     return sh.dict()
 
